@@ -318,6 +318,19 @@ func (fe *FnEnc) run() {
 		}
 	}
 	fe.curBlock = nil
+	// an assertion whose anchor matches no call of the function would be silently dropped: make it an
+	// obligation that cannot be discharged instead (vacuity guard)
+	if !fe.dry && fe.contract != nil {
+		for i := range fe.contract.Asserts {
+			if !fe.assertFired[i] {
+				as := &fe.contract.Asserts[i]
+				o := fe.addObl(st0, "assert", as.Label+":anchor-matches-no-call", fe.propsFor(&as.Clause), tFalse, fn.Pos())
+				if o != nil {
+					o.Note = ""
+				}
+			}
+		}
+	}
 }
 
 func (fe *FnEnc) edgeCond(ps *State, from, to *ssa.BasicBlock) Term {
